@@ -206,10 +206,10 @@ class NP:
         return _np.isclose(a, b, rtol=rtol, atol=atol)
 
 
-for _k in ("cos sin tan arccos arcsin arctan arctan2 sqrt cbrt degrees radians deg2rad rad2deg sinh cosh arctanh arccosh arcsinh").split():
+for _k in ("cos sin tan arccos arcsin arctan arctan2 sqrt cbrt degrees radians deg2rad rad2deg sinh cosh arctanh arccosh arcsinh log").split():
     setattr(NP, _k, staticmethod(_method(_k)))
 
-_FUNCS = ("cos sin tan arccos arcsin arctan arctan2 sqrt cbrt degrees radians deg2rad rad2deg sinh cosh arctanh arccosh arcsinh").split()
+_FUNCS = ("cos sin tan arccos arcsin arctan arctan2 sqrt cbrt degrees radians deg2rad rad2deg sinh cosh arctanh arccosh arcsinh log").split()
 
 
 def load(modname, extra=None):
